@@ -32,10 +32,16 @@ CONFIGS = [
 _state = {'built': 0, 'configs': []}
 
 
+def _c16_base():
+    """scratch area of the build matrix: per checked tree (a trial against a scratch worktree must not share a package
+    directory or target directories with a run against /repo)"""
+    return os.path.join(OUT, 'c16') if build.REPO == '/repo' else os.path.join(build.DRIVER, 'c16')
+
+
 def scratch_manifest():
     """a scratch package dir whose sources are /repo's working tree (symlinks), so building it
     never writes into /repo"""
-    d = os.path.join(OUT, 'c16', 'pkg')
+    d = os.path.join(_c16_base(), 'pkg')
     os.makedirs(d, exist_ok=True)
     shutil.copy(os.path.join(build.REPO, 'Cargo.toml'), os.path.join(d, 'Cargo.toml'))
     lock = os.path.join(build.REPO, 'Cargo.lock')
@@ -52,7 +58,24 @@ def scratch_manifest():
     return d
 
 
+def _c16_tbase():
+    return os.path.join(VERIF, 'driver', 'target-c16') if build.REPO == '/repo' else os.path.join(build.DRIVER, 'target-c16')
+
+
 def build_matrix(tier):
+    import fcntl
+    os.makedirs(_c16_base(), exist_ok=True)
+    # one build matrix at a time per checked tree: concurrent runs would rewrite the scratch manifest under each other
+    lock = open(os.path.join(_c16_base(), '.lock'), 'w')
+    fcntl.flock(lock, fcntl.LOCK_EX)
+    try:
+        return _build_matrix(tier)
+    finally:
+        fcntl.flock(lock, fcntl.LOCK_UN)
+        lock.close()
+
+
+def _build_matrix(tier):
     sr = runner.StageResult()
     t0 = time.time()
     pkg = scratch_manifest()
@@ -62,7 +85,7 @@ def build_matrix(tier):
     verb = 'check' if tier == 'quick' else 'build'
     for name, flags in CONFIGS:
         for pname, pflags in profiles:
-            tdir = os.path.join(VERIF, 'driver', 'target-c16', name.replace('+', '_'))
+            tdir = os.path.join(_c16_tbase(), name.replace('+', '_'))
             argv = ['cargo', verb, '--offline', '--manifest-path', os.path.join(pkg, 'Cargo.toml'), '--target-dir', tdir, '-j2'] + flags + pflags
             jobs.append((name, pname, argv))
 
@@ -76,6 +99,10 @@ def build_matrix(tier):
     for name, pname, rc, out in results:
         sr.evaluations += 1
         sr.events += 1
+        if rc != 0 and ('failed to parse manifest' in out or 'could not find `Cargo.toml`' in out or 'failed to read' in out
+                        or 'No space left' in out or 'Blocking waiting' in out and 'error' not in out):
+            sr.inconclusive.append('cargo could not start for configuration %s (%s): %s' % (name, pname, out.strip().splitlines()[0][:200] if out.strip() else 'no output'))
+            continue
         if rc != 0:
             first = next((l for l in out.splitlines() if l.startswith('error')), out[-300:])
             loc = next((l.strip() for l in out.splitlines() if l.strip().startswith('-->')), '')
@@ -91,7 +118,7 @@ def build_matrix(tier):
     if tier != 'quick':
         tjobs = []
         for name, flags in CONFIGS:
-            tdir = os.path.join(VERIF, 'driver', 'target-c16', name.replace('+', '_'))
+            tdir = os.path.join(_c16_tbase(), name.replace('+', '_'))
             argv = ['cargo', 'test', '--offline', '--manifest-path', os.path.join(pkg, 'Cargo.toml'), '--target-dir', tdir, '-j2', '--tests'] + flags
             tjobs.append((name, 'test', argv))
         with ThreadPoolExecutor(max_workers=6) as ex:
